@@ -39,3 +39,7 @@ package common
 //@ func ConvergeAddrPort
 //@   vpure
 //@   trusted
+
+//@ func IsValidHttpMethod
+//@   vpure
+//@   ensures result ==> len(method) >= 3 && len(method) <= 8
